@@ -1067,8 +1067,18 @@ func (c *SpecCtx) evalCall(x SCall) Val {
 		for i, p := range pd.Params {
 			v := c.eval(x.Args[i])
 			if v.T == nil || p.Sort != "Int" {
-				if t, _ := c.resolveTypeQuiet(p.Sort, pd.Pkg); t != nil && v.S != "Nil" {
+				if t, srt := c.resolveTypeQuiet(p.Sort, pd.Pkg); t != nil && v.S != "Nil" {
 					v.T = t
+				} else if t != nil && v.S == "Nil" {
+					// a literal nil takes the parameter's type
+					switch srt {
+					case "Ptr":
+						v = Val{S: "Ptr", E: nilPtr, T: t}
+					case "Slice":
+						v = Val{S: "Slice", E: nilSlice, T: t}
+					case "Iface":
+						v = Val{S: "Iface", E: "inil", T: t}
+					}
 				}
 			}
 			// name large closed argument terms: keeps queries small and keeps ite out of patterns
